@@ -150,7 +150,11 @@ class Client:
         return type(self.obj).__name__
 
     def chunks(self):
-        return [c for c, _ in self.lin] if isinstance(self.lin, list) else self.lin
+        if not isinstance(self.lin, list):
+            return self.lin
+        out = core.Lineage(c for c, _ in self.lin)
+        out.overlap = bool(getattr(self, "overlap", False))
+        return out
 
 
 class Sim:
@@ -576,7 +580,11 @@ class Sim:
                 first_ds = cl.lin[0][1]
                 if first_ds is not None and self.layout(first_ds) == self.layout(st["like"]) and len(st["values"][0]) == len(like["columns"]):
                     cont = True
-                    start = like["index"]["start"] + sum(len(c) for c, _ in cl.lin)
+                    end = getattr(cl, "end", None)
+                    if end is None:
+                        end = sum(len(c) for c, _ in cl.lin)
+                    back = min(int(st.get("overlap", 0)), end)
+                    start = like["index"]["start"] + end - back
             return dataset_object(ds, index_start=start), None, "chunk", cont
         d = st["d"]
         arg = self.ds_obj[d]
@@ -680,7 +688,7 @@ class Sim:
         if op in ("fit",) + FIT_OUTPUT_OPS:
             self.after_fit(cl, i, op, arg, ds_id, cur, res, fired, ev, i_step, fkind)
         elif op in ("update", "update_predict"):
-            self.after_update(cl, i, op, arg, cont, cur, res, fired, ev, i_step, fkind, was_comparable, lineage_before)
+            self.after_update(cl, i, op, arg, cont, cur, res, fired, ev, i_step, fkind, was_comparable, lineage_before, st.get("overlap", 0))
         elif compare_output:
             if not was_comparable:
                 self.stats["skipped_unspecified"] += 1
@@ -724,10 +732,7 @@ class Sim:
             # other, the decision sits at rounding level (e.g. a tuned threshold over
             # pure rounding noise) and the case is not judged
             try:
-                comb = lineage[0]
-                for ch in lineage[1:]:
-                    comb = ch.combine_first(comb)
-                alt = twin_outcome(cur, [comb], op, arg)
+                alt = twin_outcome(cur, [core.alt_combination(lineage)], op, arg)
             except Exception:  # noqa: BLE001
                 alt = {"status": "nobuild"}
             if alt["status"] == "done" and alt["res"][:2] != r2[:2]:
@@ -832,6 +837,8 @@ class Sim:
             self.probe("call_on_torn_object")
         elif res[0] == "ok":
             cl.lin = [(arg, ds_id)]
+            cl.overlap = False
+            cl.end = len(arg) if hasattr(arg, "__len__") else None
             cl.fitspec = cur
             cl.stale = False
             cl.amb = False
@@ -891,7 +898,7 @@ class Sim:
             r = call(tw, out_op, arg)
         return {"status": "done", "res": r, "fitted": fitted_params(tw), "fitted_raw": fitted_params_raw(tw)}
 
-    def after_update(self, cl, i, op, arg, cont, cur, res, fired, ev, i_step, fkind, was_comparable, lineage_before):
+    def after_update(self, cl, i, op, arg, cont, cur, res, fired, ev, i_step, fkind, was_comparable, lineage_before, st_overlap=0):
         self.stats["samples_streamed"] += len(arg) if hasattr(arg, "__len__") else 0
         if fired:
             cl.lin = UNSPEC
@@ -926,7 +933,9 @@ class Sim:
             # update == fit on old + new: where a fresh object can be fitted on the
             # combined data, update must not fail
             if was_comparable and res[0] == "exc" and op == "update":
-                tw = twin_outcome(cur, cl.chunks() + [arg], None, None)
+                both = core.Lineage(list(cl.chunks()) + [arg])
+                both.overlap = bool(getattr(cl, "overlap", False)) or int(st_overlap) > 0
+                tw = twin_outcome(cur, both, None, None)
                 if tw["status"] == "done":
                     self.stats["comparisons"] += 1
                     ev["cmp"] = "NE"
@@ -935,6 +944,14 @@ class Sim:
             self.probe("failed_update")
             self.mark_sharers(i, op, None)
             return
+        end = getattr(cl, "end", None)
+        if end is None:
+            end = sum(len(c) for c, _ in cl.lin)
+        back = min(int(st_overlap), end)
+        if back > 0:
+            cl.overlap = True
+            self.probe("update_with_overlapping_index")
+        cl.end = max(end, end - back + len(arg))
         cl.lin = cl.lin + [(arg, None)]
         cl.fitspec = cur
         cl.stale = False
